@@ -351,7 +351,9 @@ def cases(draw):
                     # the construction route applies the wire decoder to Python values, so an
                     # entity-looking value may legitimately shrink: keep this class entity-free
                     s = s.replace("&", "+")
-                c.update(value=["str", s + "x" * (n + extra - len(s))], why="over-length")
+                pad = draw(st.sampled_from(["x", "x", " ", "\u00a0", "\u0301"]))
+                # the excess may consist of anything - blanks, no-break spaces, combining marks
+                c.update(value=["str", s + "x" * (n - len(s)) + pad * extra if len(s) <= n else s + pad * extra], why="over-length")
             elif name == "NagString" and draw(st.booleans()):
                 c["op"] = "nag"
                 c["value"] = ["str", s + "y" * (n + draw(st.integers(1, 3)) - len(s))]
@@ -407,6 +409,9 @@ def cases(draw):
             if n is not None and draw(st.booleans()):
                 over = draw(st.sampled_from([10**n, 10**n + 7, 10 ** (n + 2), -(10**n), -(10 ** (n + 1)) - 3]))
                 c.update(value=["int", over], why="over-limit-negative" if over < 0 else "over-limit")
+                if op == "bad-native" and draw(st.integers(0, 2)) == 0:
+                    # the same number as another numeric Python type (whole-valued Decimal / float)
+                    c.update(value=draw(st.sampled_from([["dec", str(over)], ["dec", "%dE+1" % (over // 10)], ["float", float(over)]])), why="over-limit-as-number")
             elif op == "bad-value" and draw(st.integers(0, 3)) == 0:
                 c.update(value=["bool", draw(st.booleans())], why="int-subclass")
             elif op == "bad-value":
@@ -533,6 +538,13 @@ def _boundary_worker(job):
                     tbl.append(dict(base, type=["String", n], op="value", value=["str", "x" * n]))
                     tbl.append(dict(base, type=["String", n], op="bad-value", value=["str", "x" * (n + 1)], why="over-length"))
                     tbl.append(dict(base, type=["String", n], op="bad-native", value=["str", "x" * (n + 1)], why="over-length"))
+                    for pad in (" ", "\u00a0", "\u0301"):
+                        tbl.append(dict(base, type=["String", n], op="bad-value", value=["str", "e" * n + pad], why="over-length"))
+                        tbl.append(dict(base, type=["String", n], op="bad-native", value=["str", "e" * n + pad], why="over-length"))
+                    # a value at the limit is kept exactly as given (code points, not normalised)
+                    if n >= 2:
+                        tbl.append(dict(base, type=["String", n], op="value", value=["str", "e\u0301" * (n // 2)]))
+                        tbl.append(dict(base, type=["String", n], op="value", value=["str", "\u212b" * n]))
                     tbl.append(dict(base, type=["String", n], op="text", text="&amp;" * n, expect="accept", ref=["str", "&" * n]))
                     tbl.append(dict(base, type=["String", n], op="text", text="y" * (n + 1), expect="reject"))
                     tbl.append(dict(base, type=["NagString", n], op="nag", value=["str", "z" * (n + 1)]))
@@ -543,6 +555,8 @@ def _boundary_worker(job):
                     tbl.append(dict(base, type=["Integer", n], op="text", text=str(10**n), expect="reject", keysuffix="/over-limit"))
                     tbl.append(dict(base, type=["Integer", n], op="bad-value", value=["int", 10**n], why="over-limit"))
                     tbl.append(dict(base, type=["Integer", n], op="bad-native", value=["int", 10**n], why="over-limit"))
+                    tbl.append(dict(base, type=["Integer", n], op="bad-native", value=["dec", str(10**n)], why="over-limit-as-number"))
+                    tbl.append(dict(base, type=["Integer", n], op="bad-native", value=["float", float(10**n)], why="over-limit-as-number"))
                     tbl.append(dict(base, type=["Integer", n], op="bad-value", value=["int", -(10**n)], why="over-limit-negative"))
                     tbl.append(dict(base, type=["Integer", n], op="bad-value", value=["bool", bool(n % 2)], why="int-subclass"))
                     tbl.append(dict(base, type=["Integer", n], op="text", text=str(-(10**n)), expect="reject", keysuffix="/over-limit-negative"))
